@@ -61,5 +61,6 @@ def split_cubes(obl, preds, cost_share=None):
         o.cost = obl.cost / (cost_share or len(list(itertools.product((0, 1), repeat=len(names)))))
         o.bounds = obl.bounds + "; cube " + tag
         o.examples = [e for e in obl.examples if pre(**e)]
+        o.is_cube = True  # an EMPTY cube (contradictory sign combination) is not an error: the cubes cover the input space by construction
         out.append(o)
     return out
